@@ -752,7 +752,11 @@ func (c *Conn) writev(in [][]byte) (int, error) {
 	}
 
 	nwrite, err := writev(c, in)
-	if nwrite > 0 {
+	if errors.Is(err, syscall.EINTR) || errors.Is(err, syscall.EAGAIN) {
+		// nothing could be written now: cache everything, as write does.
+		nwrite, err = 0, nil
+	}
+	if err == nil && nwrite >= 0 {
 		n := nwrite
 		onWrittenSize := c.p.g.onWrittenSize
 		if n < size {
